@@ -2,6 +2,7 @@ mod api;
 mod db;
 mod fmtrun;
 mod lexrun;
+mod literal;
 mod render;
 mod rqjson;
 mod run;
@@ -23,6 +24,8 @@ fn main() {
         "rqjson" => rqjson::main(&args[1..]),
         "stages" => stages::main(&args[1..]),
         "fmtrun" => fmtrun::main(&args[1..]),
+        "literal" => literal::main(&args[1..]),
+        "number" => literal::main_numbers(&args[1..]),
         "lexlist" => lexrun::main_list(&args[1..]),
         "render-ndjson" => {
             // args: <dbset.json> <programs.ndjson> <out.ndjson of {"id","src"}>
